@@ -22,7 +22,7 @@ VARIABLES s, hist, peerSeq
 vars == <<s, hist, peerSeq>>
 
 Act(a) == [a |-> a, seq |-> 0, sq |-> "ok", integ |-> "none", hb |-> 0, enc |-> "0", cred |-> TRUE,
-           id |-> <<>>, b |-> 0, e |-> 0, ms |-> 0]
+           id |-> <<>>, b |-> 0, e |-> 0, ms |-> 0, mid |-> "", midSeq |-> 0]
 
 Mid == IF Role = "initiator" THEN HbCfg ELSE (HbMin + HbMax) \div 2
 
